@@ -478,6 +478,7 @@ func main() {
 			return []*explore.Scenario{{
 				Name:   "fault-injection matrix",
 				Shards: 16,
+				Bound:  map[bool]int{false: 1, true: 2}[th],
 				Enum: func(c *explore.EnumCtx) {
 					for _, fc := range cases(th) {
 						if !c.Mine() || c.Expired() {
